@@ -27,6 +27,7 @@ if _REPO not in sys.path:
 
 from bounded._api import Bounded, REPLAY_HEADER
 from bounded import c03_common as cm
+from bounded import c03_inherit as inh
 
 # ---------------------------------------------------------------------------------------------
 # value lattice with subtle equality (sources, so that replays can rebuild them)
@@ -557,6 +558,16 @@ def emit_groups(B, stats, pool, prop):
 
 
 @cm.silenced
+def work_inh_x1(job):
+    return inh.work_x1(job)
+
+
+@cm.silenced
+def work_inh_rand(job):
+    return inh.work_rand(job)
+
+
+@cm.silenced
 def run(tier, seed):
     B = Bounded(
         'C03',
@@ -567,9 +578,16 @@ def run(tier, seed):
               'cascading assignment, value and slot watchers, instance and class) x every program of <= 2 operations; '
               'DN: sampled product of 1..3 watchers x programs of <= 3 operations from {set, set-same, set-equal-other-type, '
               'update, trigger, Event set, slot set, class-level set, unwatch}; a case is distinct by its canonical text; '
-              'real trace compared token-wise with the reference model (disp / flush_calls of DESIGN 7)' % len(LATTICE)),
+              'real trace compared token-wise with the reference model (disp / flush_calls of DESIGN 7); '
+              'INH: class-level value and slot watchers of a Parameter inherited by a child, a sibling and a grandchild class: '
+              'histories over {watch through any class (value/bounds, onlychanged, precedence), class-level assignment '
+              'through any class (new / equal value), slot assignment through any class, unwatch through any class, '
+              'instance assignment}; exactly-once for the registering class, never twice, never after unwatch, true event'
+              % len(LATTICE)),
         bound=('lattice %d values; <= 3 watchers over parameters {a,b,c,e} + slots {a.label,n.bounds}; precedence in {0,1}; '
-               'cascades a->b->c (depth 2); programs <= 3 operations (D1 exhaustive at <= 2)' % len(LATTICE)))
+               'cascades a->b->c (depth 2); programs <= 3 operations (D1 exhaustive at <= 2); '
+               'INH: classes A<S<G, A<T; 1 watcher: <= 2 + 1 + 3 operations, 2..3 watchers: '
+               '<= 12 operations (sampled)' % len(LATTICE)))
     t0 = time.time()
     stats = {'tolerated': {}, 'foreign': {}, 'skipped': 0}
     lg, old = cm.quiet()
@@ -598,6 +616,10 @@ def run(tier, seed):
         rand_jobs = [(seed * 1000003 + 7919 * j + (0 if tier == 'quick' else 500000), n_rand)
                      for j in range(nproc * (1 if tier == 'quick' else 4))]
         rand_async = pool.map_async(work_rand, rand_jobs)
+        # INH : class-level watchers of an inherited Parameter (bounded/c03_inherit.py)
+        inh_x1_jobs, inh_rand_jobs = inh.jobs(tier, seed, nproc)
+        inh_x1_async = pool.map_async(work_inh_x1, inh_x1_jobs, 1)
+        inh_rand_async = pool.map_async(work_inh_rand, inh_rand_jobs, 1)
         eq_first = {}
         for res in eq_async.get():
             for k in res['keys']:
@@ -617,9 +639,21 @@ def run(tier, seed):
         for acc in rand_async.get():
             fold(B, acc, stats)
         emit_groups(B, stats, pool, 'C03')
+        lg, old = cm.quiet()
+        try:
+            inh_stats = inh.fold(B, inh_x1_async.get() + inh_rand_async.get())
+        finally:
+            lg.setLevel(old)
     B.exhaustive = False
     B.note('CMP and EQ are exhaustive over the lattice; D1 is %s; DN is a seeded sample of the product.'
            % ('exhaustive' if tier != 'quick' else 'a 1/16 slice chosen by the seed'))
+    B.note('INH (class-level watchers of a Parameter inherited by S(A), T(A), G(S)): %d histories, %d failing; %s'
+           % (inh_stats['cases'], inh_stats['failing'],
+              'single-watcher histories [<= 2 copy-making assignments; watch; <= 3 operations] over 4 classes: in full '
+              'except a 1/8 slice of the 3-operation suffixes that go through G; plus sampled histories with 2..3 watchers'
+              if tier != 'quick' else
+              'single-watcher histories over A,S,T: suffix <= 2 in full, a 1/16 slice of suffix 3; plus sampled histories '
+              'with 2..3 watchers over 4 classes'))
     if stats['foreign']:
         B.note('differences inside the batched part of update/trigger (C04 clauses, reported by bounded/c04.py, '
                'not counted here): %r' % (stats['foreign'],))
